@@ -48,6 +48,7 @@ func runC11(c *an.Ctx) string {
 	r11Progress(c)
 	r11ResetState(c)
 	r11StaticDependencies(c, "R11.13")
+	r11RootIdentity(c, "R11.14")
 	return explanationC11
 }
 
@@ -1060,4 +1061,35 @@ func r11StaticDependencies(c *an.Ctx, rule string) {
 		}
 	}
 	c.Floor(rule, n, 2, "DependsOn implementations")
+}
+
+// r11RootIdentity (R11.14): roots are told apart by name everywhere (RunDSL and Roots() key their tables by
+// EvalName). Register must refuse a second root under a name already taken by comparing names too: two distinct
+// root values that share a name would otherwise both be accepted, and the phases that look roots up by name process
+// one of them twice and the other never. The duplicate test of Register compares the EvalName() of both roots.
+func r11RootIdentity(c *an.Ctx, rule string) {
+	f := c.MustFunc(rule, "eval", "Register")
+	if f == nil {
+		return
+	}
+	found := false
+	c.InspectAll(f, func(hf *an.Func, n ast.Node) bool {
+		be, ok := n.(*ast.BinaryExpr)
+		if !ok || (be.Op != token.EQL && be.Op != token.NEQ) {
+			return true
+		}
+		isName := func(e ast.Expr) bool {
+			call, ok := an.Unparen(e).(*ast.CallExpr)
+			if !ok {
+				return false
+			}
+			se, ok := an.Unparen(call.Fun).(*ast.SelectorExpr)
+			return ok && se.Sel.Name == "EvalName"
+		}
+		if isName(be.X) && isName(be.Y) {
+			found = true
+		}
+		return true
+	})
+	c.Check(found, rule, c.RefName(f)+"#duplicate", f.Decl.Pos(), "a root is refused when another root of the same EvalName is registered", "Register no longer compares the EvalName of the new root with the names of the registered ones: two roots with one name are both accepted while every phase looks roots up by name")
 }
